@@ -35,6 +35,7 @@ mod c16;
 mod asyncx;
 mod c11;
 mod c06;
+mod c06e1;
 mod c12;
 
 use registry::Tier;
